@@ -332,6 +332,83 @@ func runC18(c *Ctx) {
 		}
 	}
 	R.Floor("R18.3:instantiations", ninst, 2)
+	// R18.3b: the callbacks handed to the cache do not turn a failed lookup into a success (which the cache would then store):
+	// on every inlined path of a callback on which the error of a call it made is not known to be nil, the callback returns a
+	// non-nil error
+	ncb := 0
+	for _, f := range c.P.ModFuncs {
+		for _, b := range f.Blocks {
+			for _, in := range b.Instrs {
+				call, ok := in.(*ssa.Call)
+				if !ok {
+					continue
+				}
+				cal := call.Common().StaticCallee()
+				if cal == nil || cal.Origin() == nil && !strings.HasPrefix(cal.Name(), "GetWithExpiration") || cal.Origin() != nil && core.FuncName(cal.Origin()) != "cache.GetWithExpiration" {
+					continue
+				}
+				if core.ShortPkg(core.FuncPkg(f)) == "cache" {
+					continue
+				}
+				var cb *ssa.Function
+				for _, a := range call.Common().Args {
+					if mc, ok := c.P.Def(a).(*ssa.MakeClosure); ok {
+						cb, _ = mc.Fn.(*ssa.Function)
+					} else if fv, ok := a.(*ssa.Function); ok {
+						cb = fv
+					}
+				}
+				if cb == nil {
+					R.Fail("R18.3", core.FuncName(f)+"#cache-callback", call.Pos(), core.FuncName(f), "the callback handed to the cache cannot be resolved: undecided")
+					continue
+				}
+				ncb++
+				cfn := core.FuncName(cb)
+				res := cb.Signature.Results()
+				if res.Len() != 2 || !isErrorType(res.At(1).Type()) {
+					continue
+				}
+				bad := ""
+				for _, ip := range InlinedPaths(c.P, cb, inlineOpts{pkg: core.FuncPkg(cb), stop: hasLoop}) {
+					if !ip.Results[1].IsConst("nil") {
+						continue
+					}
+					// a success return: every error a call produced on this path was tested nil
+					for _, ev := range ip.Events {
+						cl, ok := ev.Instr.(*ssa.Call)
+						if !ok || ev.Kind != "call" || cl.Referrers() == nil {
+							continue
+						}
+						var errv ssa.Value
+						if tup, ok := cl.Type().(*types.Tuple); ok {
+							for _, r := range *cl.Referrers() {
+								if ex, ok := r.(*ssa.Extract); ok && ex.Index == tup.Len()-1 && isErrorType(ex.Type()) {
+									errv = ex
+								}
+							}
+						} else if isErrorType(cl.Type()) {
+							errv = cl
+						}
+						if errv == nil {
+							continue
+						}
+						known := false
+						for _, a := range ip.Atoms {
+							nn := a.Norm()
+							if nn.Sign && nn.Cond.Op == "binop" && nn.Cond.Name == "==" && nn.Cond.Args[1].IsConst("nil") && nn.Cond.Args[0].Val == errv {
+								known = true
+							}
+						}
+						if !known {
+							bad = "returns a nil error at " + c.P.PosStr(ip.Ret.Pos()) + " on a path where the error of " + ev.Callee + " (" + c.P.PosStr(cl.Pos()) + ") is not known to be nil"
+						}
+					}
+				}
+				R.Check(bad == "", "R18.3", cfn+"#failure-stays-failure", cb.Pos(), cfn, "the cache callback reports every failed call as an error", "the cache callback "+bad+": the failure is handed to the cache as a success and stored, so later lookups get the empty value without asking again")
+			}
+		}
+	}
+	R.Floor("R18.3:cache-callbacks", ncb, 2)
 	// ---- R18.4 providers
 	gp := c.P.Func("publicip.GetPublicIP")
 	if gp == nil {
